@@ -19,6 +19,10 @@
 //	     request header fields were handed to the wire; srvrc = status code of the error the
 //	     handler got from SetHeader/SendHeader/SetTrailer (0 = every call returned nil)
 //
+//	op [3, mode, md, ncalls, kvs..., H, T, P]   as op 1, and the channel's LB policy (pick_first
+//	     wrapped by the driver's "verif_pickmd" policy) returns PickResult.Metadata = P for the pick
+//	obs  as op 1
+//
 //	op [2, n, (name, value)...]   a raw HTTP/2 peer (x/net/http2 Framer + hpack) opens its own
 //	     connection to the same server and sends one unary request whose header block is
 //	     :method POST, :scheme http, :path, :authority bufnet, content-type application/grpc,
@@ -47,6 +51,7 @@ import (
 	"golang.org/x/net/http2"
 	"golang.org/x/net/http2/hpack"
 	"google.golang.org/grpc"
+	"google.golang.org/grpc/balancer"
 	"google.golang.org/grpc/credentials/insecure"
 	"google.golang.org/grpc/metadata"
 	"google.golang.org/grpc/stats"
@@ -154,6 +159,39 @@ type vMDWireCall struct {
 	got    metadata.MD
 	srvrc  int64
 }
+
+// "verif_pickmd": pick_first whose picker adds PickResult.Metadata = the current op's P.
+var vMDWirePickMD atomic.Value // of vMDWirePickBox
+
+type vMDWirePickBox struct{ md metadata.MD }
+
+type vMDWirePickBuilder struct{}
+
+func (vMDWirePickBuilder) Name() string { return "verif_pickmd" }
+func (vMDWirePickBuilder) Build(cc balancer.ClientConn, opts balancer.BuildOptions) balancer.Balancer {
+	return balancer.Get("pick_first").Build(&vMDWirePickCC{ClientConn: cc}, opts)
+}
+
+type vMDWirePickCC struct{ balancer.ClientConn }
+
+func (c *vMDWirePickCC) UpdateState(s balancer.State) {
+	s.Picker = &vMDWirePicker{s.Picker}
+	c.ClientConn.UpdateState(s)
+}
+
+type vMDWirePicker struct{ p balancer.Picker }
+
+func (p *vMDWirePicker) Pick(info balancer.PickInfo) (balancer.PickResult, error) {
+	r, err := p.p.Pick(info)
+	if err == nil {
+		if b, ok := vMDWirePickMD.Load().(vMDWirePickBox); ok && b.md != nil {
+			r.Metadata = b.md
+		}
+	}
+	return r, err
+}
+
+func init() { balancer.Register(vMDWirePickBuilder{}) }
 
 // vMDWireStats counts the header blocks the client transport wrote.
 type vMDWireStats struct{ outHeaders int64 }
@@ -278,7 +316,8 @@ func vMDWireStart() *vMDWireEnv {
 	cc, err := grpc.NewClient("passthrough:///bufnet",
 		grpc.WithContextDialer(func(ctx context.Context, _ string) (net.Conn, error) { return lis.DialContext(ctx) }),
 		grpc.WithTransportCredentials(insecure.NewCredentials()),
-		grpc.WithStatsHandler(env.st))
+		grpc.WithStatsHandler(env.st),
+		grpc.WithDefaultServiceConfig(`{"loadBalancingConfig":[{"verif_pickmd":{}}]}`))
 	if err != nil {
 		panic(err)
 	}
@@ -383,7 +422,7 @@ func vMDWireExec(cfg []int64, ops [][]int64) ([][]int64, bool, []string) {
 				tagset["rawpeer"] = true
 				return
 			}
-			if len(op) < 3 || op[0] != 1 || op[1] < 0 || op[1] > 3 {
+			if len(op) < 3 || (op[0] != 1 && op[0] != 3) || op[1] < 0 || op[1] > 3 {
 				return
 			}
 			mode := op[1]
@@ -407,9 +446,21 @@ func vMDWireExec(cfg []int64, ops [][]int64) ([][]int64, bool, []string) {
 				return
 			}
 			t, w, ok := vMDWireMD(w)
-			if !ok || len(w) != 0 {
+			if !ok {
 				return
 			}
+			var pick metadata.MD
+			if op[0] == 3 {
+				if pick, w, ok = vMDWireMD(w); !ok {
+					return
+				}
+				tagset["pickmd"] = true
+			}
+			if len(w) != 0 {
+				return
+			}
+			vMDWirePickMD.Store(vMDWirePickBox{pick})
+			defer vMDWirePickMD.Store(vMDWirePickBox{nil})
 			c := &vMDWireCall{mode: mode, h: h, t: t}
 			env.cur = c
 			ctx, cancel := context.WithCancel(context.Background())
@@ -504,6 +555,13 @@ func vMDWireOpM(mode int64, md []vMDWireEntry, calls [][]string, h, t []vMDWireE
 
 func vMDWireOp(md []vMDWireEntry, calls [][]string, h, t []vMDWireEntry) []int64 {
 	return vMDWireOpM(0, md, calls, h, t)
+}
+
+// vMDWireOpP: op 3, the picker returns PickResult.Metadata = p.
+func vMDWireOpP(mode int64, md []vMDWireEntry, calls [][]string, h, t, p []vMDWireEntry) []int64 {
+	w := vCat(vMDWireOpM(mode, md, calls, h, t), vMDWireEncMD(p))
+	w[0] = 3
+	return w
 }
 
 var vMDWireKeys = []string{"a", "b", "k-1", "x_.z", "0", "a-bin", "b-bin", "x.y-bin", "grpc-previous-rpc-attempts", "grpc-retry-pushback-ms", "grpc-accept-encoding", "bin", "-bin"}
@@ -673,6 +731,21 @@ func vMDWireGen(r *vRand, tier string, idx int) ([]int64, [][]int64) {
 			R("grpc-accept-encoding", "identity", "k", "v"), R("grpc-previous-rpc-attempts", "3"),
 			R("user-agent", "evil"), R("content-type", "text/html"), R("host", "h"), R("host", "a", "host", "b"), R("connection", "close"),
 			R(":authority", "other"), R(":foo", "x"), R("K", "v"), R("k", "a\x7fb"), R("k", "a\x80b"), R("", "v")}
+	case 11: // LB pick metadata together with appended pairs, every RPC shape
+		var ops [][]int64
+		for m := int64(0); m <= 3; m++ {
+			ops = append(ops,
+				vMDWireOpP(m, []vMDWireEntry{E("a", "1"), E("s", "b"), E("e")}, [][]string{{"App", "x", "S", "ap"}, {"E", "z", "App-Bin", "\x00\xff"}},
+					[]vMDWireEntry{E("h", "1")}, []vMDWireEntry{E("t", "2")}, []vMDWireEntry{E("lb", "L"), E("s", "lbs"), E("lb-bin", "\x00\xff"), E("e", "p"), E("f")}),
+				vMDWireOpP(m, []vMDWireEntry{E("a", "1")}, [][]string{{"B", "2"}}, nil, nil, nil),
+				vMDWireOpP(m, nil, nil, nil, nil, []vMDWireEntry{E("lb", "L")}),
+				vMDWireOpP(m, nil, [][]string{{"B", "2", "b", "3"}}, nil, nil, []vMDWireEntry{E("b", "4"), E("te", "x"), E("grpc-status", "5"), E("user-agent", "evil")}),
+				vMDWireOpP(m, []vMDWireEntry{E("a", "1")}, [][]string{{"B", "2"}}, nil, nil, []vMDWireEntry{E(":authority", "other"), E("lb", "L")}),
+				vMDWireOpP(m, []vMDWireEntry{E("a", "1")}, [][]string{{"B", "2"}}, nil, nil, []vMDWireEntry{E("LB", "x")}),
+				vMDWireOpP(m, []vMDWireEntry{E("a", "1")}, nil, nil, nil, []vMDWireEntry{E("lb", "\x7f")}),
+				vMDWireOpP(m, []vMDWireEntry{E("a", "\n")}, nil, nil, nil, []vMDWireEntry{E("lb", "L")}))
+		}
+		return cfg, ops
 	case 6: // finding replays: server metadata the API does not validate (unary helpers, SetTrailer)
 		return cfg, [][]int64{vMDWireOpM(0, nil, nil, []vMDWireEntry{E("h", "a\x80")}, nil)}
 	case 7:
@@ -727,6 +800,16 @@ func vMDWireGen(r *vRand, tier string, idx int) ([]int64, [][]int64) {
 		h, t := vMDWireRandMD(r, 3, 20, true), vMDWireRandMD(r, 3, 20, true)
 		if mode != 0 && r.Chance(10) { // invalid header metadata on the validating path
 			h = append(h, vMDWireEntry{[]string{"zz", "Zz", "z z"}[r.Intn(3)], []string{string([]byte{'a', byte(r.PickInt(0, 9, 31, 127, 128, 255))})}})
+		}
+		if r.Chance(25) { // the LB policy adds pick metadata
+			pk := vMDWireRandMD(r, 3, 15, true)
+			for j := range pk {
+				if pk[j].k == ":authority" { // the override is exercised with a fixed host name in case 11
+					pk[j].k = ":x"
+				}
+			}
+			ops = append(ops, vMDWireOpP(mode, md, calls, h, t, pk))
+			continue
 		}
 		ops = append(ops, vMDWireOpM(mode, md, calls, h, t))
 	}
